@@ -741,7 +741,9 @@ func (g *txGen) probeOntfsErrors(n int) *Input {
 	tx := g.mtx(code, 0, 20000)
 	tx.Payer = g.book.Address
 	signSingle(tx, g.book)
-	return &Input{Kind: "probe:maporder:ontfs-errors-event", BookKey: g.bookKeyHex(), Repeat: 40,
+	// repaired in /repo 859ea035 (entries written in key order): kept as a regression probe, all 40
+	// executions must give the identical notification; the class is not a known finding any more
+	return &Input{Kind: "probe:regression:ontfs-errors-event-order", BookKey: g.bookKeyHex(), Repeat: 40,
 		Track: []string{g.book.Address.ToHexString()}, Blocks: [][]TxSpec{{{rawOf(tx), "probe:ontfs-delete-missing-files"}}}}
 }
 
